@@ -1,6 +1,6 @@
 """C15 — reference counts track handles exactly (mptcore/misc/refcount.c, array/buffer_alloc.c, array/array_clone.c,
 array/array_traits.c, convert/data_converter.c, meta/meta_reference_traits.c, meta/meta_geninfo.c, array/meta_buffer.c,
-event/reply_deferrable.c, core.h reference<T>, mpt++/refcount_wrap.cpp, mpt++/metatype_generic.cpp, mptplot/rawdata_create.c,
+event/reply_deferrable.c, core.h reference<T> (also for objects that own a reference<T> to another object of their family), mpt++/refcount_wrap.cpp, mpt++/metatype_generic.cpp, mptplot/rawdata_create.c,
 mptplot/values/iterator_file.c, mptio stream input)."""
 import itertools
 import os
@@ -11,7 +11,7 @@ MAX1 = "fffffffffffffffe"
 ARITY = {"new": 2, "mbuf": 2, "addref": 2, "unref": 1, "clone": 2, "conv": 2, "rinit": 3, "rfini": 2, "rcopy": 0,
          "aclone": 2, "aclear": 1, "detach": 1, "detachf": 1, "setin": 2, "defer": 2, "force": 2, "unforce": 0,
          "xnew": 1, "xassign": 2, "xcopy": 2, "xmove": 2, "xdetach": 2, "xset": 2, "xdrop": 1, "xgen": 1, "xclone": 2,
-         "modify": 3, "advance": 1, "rget": 2, "rread": 1,
+         "modify": 3, "advance": 1, "rget": 2, "rread": 1, "rconv": 1, "xsetnext": 2, "xnext": 2,
          "set": 1, "raise": 0, "lower": 0}
 MKINDS = ["hcnt", "huni", "gen", "cfg", "top", "reply", "raw", "stream", "iterf", "itern"]      # created by "new" in a metatype slot
 COUNTED = ["hcnt", "reply", "raw", "stream", "iterf", "itern"]
@@ -20,11 +20,21 @@ CLONEABLE = ["huni", "gen", "cfg", "mbuf", "itern"]
 # released (docs/C15_rawdata_advance.diff).  The model is the patched code.  While the patch is not in the tree the
 # generator emits `advance` only where the object is known to own a stage buffer; set to True after the fix is committed.
 ADVANCE_EMPTY = True   # constant since the fix f56bd43 is committed: a returning defect is reported
+# mpt_rawdata_type_traits() registers "mpt.rawdata" again on every call (its cache variable is not static), so only the FIRST
+# call of a process returns the type: afterwards a rawdata object no longer converts to its own interface by type id and
+# reports TypeMetaPtr as its type (replay `c new raw 0 rconv 0`, patch docs/C15_rawdata_type_traits.diff; no reference is
+# involved: outside the C15 statement, closest to C06).  `rconv` (the conversion, three times) is generated only when True.
+RAWDATA_TYPE_STABLE = True
 RAW_OPS = ["modify 0 0 0", "modify 1 1 1", "modify 0 2 2", "modify 0 0 3", "modify 1 0 4", "rget 0 6", "rget 1 7",
            "setin 0 6", "setin 1 7", "aclear 6", "rread 0", "new buf 7", "aclone 7 6"]
 BKINDS = ["buf", "hbuf"]
 C_CLEAN = ["unforce"] + ["unref %d" % i for i in range(6)] + ["aclear %d" % i for i in (6, 7, 8)] + ["unref %d" % i for i in (9, 10, 11)]
 X_CLEAN = ["unforce"] + ["xdrop %d" % i for i in (12, 13, 14)] + ["unref %d" % i for i in (15, 16, 17)]
+N_CLEAN = ["xdrop %d" % i for i in (12, 13, 14)] + ["unref %d" % i for i in (15, 16, 17)]
+# family n (linked nodes): operations tried after a chain has been built
+N_OPS = ["xnext 12 12", "xnext 12 13", "xnext 13 13", "xnext 13 12", "xassign 12 13", "xassign 13 12", "xmove 12 13", "xmove 13 12",
+         "xcopy 12 13", "xdrop 12", "xdrop 13", "xnew 13", "xnew 14", "xsetnext 12 13", "xsetnext 13 12", "xsetnext 14 12",
+         "xsetnext 12 14", "xdetach 12 15", "xset 15 13", "addref 15 16", "unref 15", "unref 16"]
 
 
 def ccase(ops):
@@ -37,6 +47,19 @@ def xcase(ops):
 
 def gcase(ops):
     return " ".join(["g"] + list(ops) + X_CLEAN)
+
+
+def ncase(ops):
+    return " ".join(["n"] + list(ops) + N_CLEAN)
+
+
+def chain(n, d=12, t=13):
+    """n nodes, each owning a reference to the one created before it; afterwards slot d holds the head (the node created
+    last) and NOTHING else holds any of them: every other node lives through its predecessor only"""
+    ops = ["xnew %d" % d]
+    for _ in range(n - 1):
+        ops += ["xnew %d" % t, "xsetnext %d %d" % (d, t), "xmove %d %d" % (t, d)]
+    return ops
 
 
 def mk(kind, d, a=6):
@@ -67,6 +90,11 @@ class C15(DiffProperty):
             "array shared out into an array and handed to another rawdata object+accessors/reply defer/counter field forced to 1,2,max-1,max; "
             "x = mpt++ reference<T> under set_instance/copy-assign/copy-construct/move/detach/raw addref+unref/forced counter; "
             "g = the same operations plus clone on metatype::generic objects held by reference<metatype>; "
+            "n = linked nodes: harness objects that OWN a reference<node> next, under the operations of x (no forced counter) plus "
+            "next-of-the-object-in-slot-d := slot s (only towards an older object: no cycles) and slot d := next of the object in "
+            "slot s (s = d: cur = cur->next): chains of 1..4 nodes built from the tail and held by ONE outside handle, walked to the "
+            "end, with sharers on middle nodes, cut and re-linked; every history of length <= 2 (thorough: <= 3) over 22 operations "
+            "after a chain of 1, 2, 3 nodes plus a 3 % sample of length 3, plus 500 random histories; "
             "r,y = the bare counter through mpt_refcount_raise/lower and refcount::raise/lower from 0,1,2,max-1,max. quick: EVERY "
             "ordered pair (old kind, new kind) x shared/unshared x {conversion, traits init, rcopy} x target empty/held/same, "
             "every history of length <= 2 over a per-kind alphabet of 17..25 operations (plus a 6 % sample of length 3; x: "
@@ -83,6 +111,9 @@ class C15(DiffProperty):
                 "typed copy/fini loops of C04/C05, checked here by a harness monitor and the sanitizers only), "
                 "mptplot/values/iterator_file.c and mptio/stream/stream_input.c (reference part), core.h reference<T>, "
                 "mpt++/refcount_wrap.cpp, mpt++/metatype_generic.cpp (addref/unref/clone) transcribed in coq/C15/RefcountModel.v; "
+                "core.h reference<T> once more for a class with a member reference<T> (type::unref -> delete -> member destructor -> "
+                "unref of the successor: the destruction cascade; operator= retains before it releases) in coq/C15/ChainModel.v "
+                "(own state space: the node family shares no object with the other kinds; ownership restricted to older objects); "
                 "not modelled: mptcore/array/buffer_map.c (its constructor can never succeed: page size test inverted), "
                 "mptio/output_remote.c, mptplot/history/output_local.c, mpt++/io_buffer_metatype.cpp, io_stream_input.cpp; contents of buffers, typed buffer elements "
                 "(C04/C05), reply transport (C12), malloc failure and threads are not modelled")
@@ -96,6 +127,8 @@ class C15(DiffProperty):
                "store array with the number of stages referring to it and checks that every data buffer exists (token suffix !nested); "
                "values/dimension_count/stage_count/convert results are compared with the structure read back by the harness (rread); "
                "the stage member is only ever given stage buffers (setin restricted), all objects have cycle limit 0",
+               "family n: the node class (virtual destructor logging the destruction, member reference<Node> next) is the harness' own; the "
+               "guard that an object only owns handles on objects created before it (no cycles) is enforced by harness and model alike",
                "c15_cxx.cpp reads the private counter member of metatype::generic by compiling meta.h with private/protected "
                "redefined to public (no layout change with g++)"]
     level_text = ("proof: Coq theorems (coq/C15/Properties.v) state for the transcribed mechanism, for EVERY history of the 30 handle "
@@ -118,7 +151,18 @@ class C15(DiffProperty):
                   "releases the old referent once and retains the new one once, any kind, target empty/held/same "
                   "(C15_assign_any_form_releases_old_once_retains_new_once, C15_assign_releases_old_once_retains_new_once, "
                   "C15_assign_refused_unchanged, C15_assign_same_unchanged); modify/advance of the plot data object never change a sharer's slot, "
-                  "a shared stage buffer is detached for the object (C15_rawdata_modify_keeps_sharers); the invariant is inductive from any state "
+                  "a shared stage buffer is detached for the object (C15_rawdata_modify_keeps_sharers); "
+                  "OWNED handles of the same family (ChainModel.v / ChainSpec.v, 11 operations on linked nodes, every history): the model with "
+                  "counters, destruction flags, retain-then-release operator= and the destruction cascade refines a specification that "
+                  "only records which handle each object owns and what each slot holds and DERIVES existence and counts (an owned handle "
+                  "of an existing object is a handle) — step refinement from every related pair, same observation, history refinement, no "
+                  "fault, destroyed iff no handle left (C15_chain_step_refines_spec, C15_chain_refinement_preserves_observation, "
+                  "C15_chain_history_refines_spec, C15_chain_history_never_faults, C15_chain_destroyed_iff_last_handle_dropped, "
+                  "C15_chain_step_preserves_invariant); the cascade through owned handles terminates, restores the invariant and consumes "
+                  "exactly the released handle (C15_chain_release_cascade); cur = cur->next keeps the successor alive even when the old "
+                  "head held the only handle on it and dies in that assignment (C15_chain_step_keeps_successor; Example "
+                  "C15_ex_release_first_faults: with release-before-retain the same step uses a destroyed object); "
+                  "the invariant is inductive from any state "
                   "(C15_step_preserves_invariant); the model is tied to the code on every run by differential execution under "
                   "ASan/UBSan/LSan with counter fields, destruction time and vtable call order compared")
     level_note = ("trusted: Coq kernel; hand transcription of the C/C++ sources (validated by the correspondence run, not verified); "
@@ -133,10 +177,17 @@ class C15(DiffProperty):
                   "buffer, config root) are correspondence-level for the destruction TIME; buffer contents / typed elements "
                   "(C04/C05) and reply transport (C12) are outside. The theorems hold for the tree with the fix: commits "
                   "(data_converter.c, input_traits.c, array_clone.c, buffer_alloc.c detach failure path, metatype_generic.cpp). "
-                  "OPEN DEFECT modelled as patched: rawdata advance() on an object without stage buffer creates an UNTYPED buffer, value "
-                  "stores assigned later are never released (replay c new raw 0 advance 0 modify 0 0 0 unref 0: I L1, S L0; patch "
-                  "docs/C15_rawdata_advance.diff); until it is in the tree the generator emits advance only for objects that own a "
-                  "stage buffer (ADVANCE_EMPTY = False in props/c15.py; two corpus lines marked #~). "
+                  "The rawdata advance() defect is fixed in the tree (f56bd43; ADVANCE_EMPTY is a constant). "
+                  "Linked nodes: the node family has its own model and specification (ChainModel.v/ChainSpec.v) instead of being a 17th "
+                  "kind of RefcountModel.v — the main invariant says an owned object owns nothing, generalising it was not attempted; the "
+                  "two share counter, slot numbering, observation format and proof technique. An object may own handles on OLDER "
+                  "objects only (guard shared by harness, model and specification): ownership is acyclic by construction, existence is "
+                  "computed from the youngest object down, the cascade's fuel bound is the object id; cycles (which leak by design) "
+                  "are not explored. Counters of nodes are not forced (the saturated-counter path of operator= is covered by families "
+                  "x and g). NOT YET IN THE TREE: mpt_rawdata_type_traits() registers its type name on every call (cache variable not "
+                  "static), from the second call of a process on a rawdata object does not convert to its own interface any more "
+                  "(replay c new raw 0 rconv 0: I ?iface, S D; patch docs/C15_rawdata_type_traits.diff; no reference involved, belongs "
+                  "to the type registry's clients rather than C15); rconv cases are generated only with RAWDATA_TYPE_STABLE = True. "
                   "All theorems closed under the global context.")
     technique = ("Coq forward-simulation (refinement) proof mechanism model -> handle-multiset specification for every operation and "
                  "every history, invariant counter = handle multiset + differential correspondence check")
@@ -155,7 +206,7 @@ class C15(DiffProperty):
         ided = ["c%d %s" % (i, c) for i, c in enumerate(cases)]
         fam = lambda l: l.split(None, 2)[1]
         I, errs = {}, []
-        for exe, fams, tag, env in ((hc, ("c", "r"), "implc", self.harness_env), (hx, ("x", "y"), "implx", self.harness_env),
+        for exe, fams, tag, env in ((hc, ("c", "r"), "implc", self.harness_env), (hx, ("x", "y", "n"), "implx", self.harness_env),
                                     (hx, ("g",), "implg", self.generic_env)):
             sub = [l for l in ided if fam(l) in fams]
             if sub:
@@ -186,7 +237,7 @@ class C15(DiffProperty):
     def classify(self, case):
         hdr, ops = self.split(case)
         cl = {"family:" + hdr[0]}
-        nclean = len(C_CLEAN) if hdr[0] == "c" else len(X_CLEAN) if hdr[0] in ("x", "g") else 0
+        nclean = len(C_CLEAN) if hdr[0] == "c" else len(X_CLEAN) if hdr[0] in ("x", "g") else len(N_CLEAN) if hdr[0] == "n" else 0
         body = ops[:len(ops) - nclean] if nclean and len(ops) >= nclean else ops
         for o in body:
             cl.add("op:" + o[0])
@@ -195,7 +246,9 @@ class C15(DiffProperty):
             if o[0] == "mbuf":
                 cl.add("kind:mbuf")
             if o[0] == "xnew":
-                cl.add("kind:cxx")
+                cl.add("kind:cxx" if hdr[0] != "n" else "kind:node")
+            if o[0] == "xnext" and o[1] == o[2]:
+                cl.add("step-along-chain")
             if o[0] == "xgen":
                 cl.add("kind:xgen")
             if o[0] == "force":
@@ -210,7 +263,7 @@ class C15(DiffProperty):
         hdr, ops = self.split(case)
         n = len(ops)
         # drop the whole clean-up, then single operations, then simplify forced values
-        for k in (len(C_CLEAN), len(X_CLEAN)):
+        for k in (len(C_CLEAN), len(X_CLEAN), len(N_CLEAN)):
             if n > k:
                 yield self.join(hdr, ops[:n - k])
         for k in range(n):
@@ -275,6 +328,10 @@ class C15(DiffProperty):
             for ops in (["rget 0 8", "aclone 6 8", "aclone 8 6"], ["rget 0 6"], ["rget 0 7", "aclone 7 6", "aclone 6 7", "rinit 0 7 8"],
                         ["rget 0 8", "new raw 1", "setin 1 6", "setin 1 8", "rget 1 6", "aclear 6", "rget 1 6"]):
                 cs.append(ccase(["new raw 0", "modify 0 0 0", "new %s 6" % k] + ops + ["rread 0", "modify 0 1 1", "unref 0"]))
+        if RAWDATA_TYPE_STABLE:
+            for ops in (["rconv 0"], ["modify 0 0 0", "rconv 0", "rget 0 6", "rconv 0"], ["rread 0", "rconv 0", "addref 0 1", "rconv 1"],
+                        ["rconv 0", "new raw 1", "rconv 1", "rconv 0", "unref 0", "rconv 1"]):
+                cs.append(ccase(["new raw 0"] + ops + ["unref 0"]))
         if ADVANCE_EMPTY:
             for tail in ([], ["modify 0 0 0"], ["rget 0 6", "modify 0 0 0"], ["rget 0 6", "new raw 1", "setin 1 6", "modify 1 0 0", "modify 0 1 1"]):
                 cs.append(ccase(["new raw 0", "advance 0"] + tail + ["rread 0", "unref 0"]))
@@ -287,7 +344,7 @@ class C15(DiffProperty):
         if kind == "reply":
             a += ["defer 0 9", "defer 1 10", "unref 9", "unref 10"]
         if kind == "raw":
-            a += RAW_OPS + (["advance 0", "advance 1"] if ADVANCE_EMPTY else [])
+            a += RAW_OPS + (["advance 0", "advance 1"] if ADVANCE_EMPTY else []) + (["rconv 0"] if RAWDATA_TYPE_STABLE else [])
         if kind == "mbuf":
             a += ["aclear 6", "addref 6 7", "detach 6", "aclear 7"]
         if kind in COUNTED:
@@ -359,6 +416,61 @@ class C15(DiffProperty):
             for seq in itertools.product(g, repeat=n):
                 cs.append(gcase(["xgen 12"] + list(seq)))
         return cs
+
+    def node_cases(self, depth, rng, sample):
+        """objects that own a reference<T> to another object of their family: chains of 1..4 nodes held by ONE outside handle,
+        then every history of length <= depth over N_OPS (plus a sample of length depth + 1)"""
+        cs = []
+        # the walk: cur = cur->next until the end, the tail dropped last; with a sharer on a middle node; cut and re-link
+        for n in (2, 3, 4):
+            cs.append(ncase(chain(n) + ["xnext 12 12"] * n))
+            cs.append(ncase(chain(n) + ["xnext 12 13", "xdrop 12"] + ["xnext 13 13"] * (n - 1)))
+            cs.append(ncase(chain(n) + ["xnext 12 13", "xnext 13 14", "xdrop 12", "xdrop 13", "xnext 14 14", "xnext 14 14"]))
+            cs.append(ncase(chain(n) + ["xnext 12 13", "xsetnext 14 12", "xnext 12 12", "xsetnext 13 12", "xdrop 13", "xnext 12 12"]))
+            cs.append(ncase(chain(n) + ["xdetach 12 15", "addref 15 16", "unref 15", "xset 16 13", "xnext 13 13", "xnext 13 13"]))
+            cs.append(ncase(chain(n) + ["xnext 12 14", "xnew 13", "xsetnext 12 13", "xdrop 12", "xnext 13 13", "xnext 14 14", "xnext 13 13"]))
+            cs.append(ncase(chain(n) + ["xcopy 12 13", "xnext 13 13", "xmove 13 12", "xnext 12 12", "xassign 14 12"]))
+        for n in (1, 2, 3):
+            pre = chain(n)
+            for k in range(1, depth + 1):
+                for seq in itertools.product(N_OPS, repeat=k):
+                    cs.append(ncase(pre + list(seq)))
+            for seq in itertools.product(N_OPS, repeat=depth + 1):
+                if rng.random() < sample:
+                    cs.append(ncase(pre + list(seq)))
+        return cs
+
+    def random_n(self, rng):
+        d = rng.choice((12, 13, 14))
+        ops = chain(rng.choice((1, 2, 2, 3, 3, 4)), d, rng.choice([i for i in (12, 13, 14) if i != d]))
+        R = lambda: rng.choice((12, 13, 14))
+        P = lambda: rng.choice((15, 16, 17))
+        for _ in range(rng.randrange(3, 13)):
+            r = rng.random()
+            if r < 0.10:
+                ops.append("xnew %d" % R())
+            elif r < 0.32:
+                d = R()
+                ops.append("xnext %d %d" % (d if rng.random() < 0.6 else R(), d))
+            elif r < 0.47:
+                ops.append("xsetnext %d %d" % (R(), R()))
+            elif r < 0.57:
+                ops.append("xassign %d %d" % (R(), R()))
+            elif r < 0.64:
+                ops.append("xcopy %d %d" % (R(), R()))
+            elif r < 0.72:
+                ops.append("xmove %d %d" % (R(), R()))
+            elif r < 0.78:
+                ops.append("xdetach %d %d" % (R(), P()))
+            elif r < 0.84:
+                ops.append("xset %d %d" % (P(), R()))
+            elif r < 0.91:
+                ops.append("xdrop %d" % R())
+            elif r < 0.95:
+                ops.append("addref %d %d" % (P(), P()))
+            else:
+                ops.append("unref %d" % P())
+        return ncase(ops)
 
     def counter_cases(self, depth):
         cs = []
@@ -449,7 +561,8 @@ class C15(DiffProperty):
                 elif filled[s] == "raw":
                     ops.append(rng.choice(["modify %d %d %d" % (s, rng.randrange(3), rng.randrange(5)), "modify %d 0 0" % s,
                                            "rget %d %d" % (s, rng.choice((6, 7, 8))), "setin %d %d" % (s, rng.choice((6, 7, 8))),
-                                           "rread %d" % s] + (["advance %d" % s] if ADVANCE_EMPTY else [])))
+                                           "rread %d" % s] + (["advance %d" % s] if ADVANCE_EMPTY else []) +
+                                          (["rconv %d" % s] if RAWDATA_TYPE_STABLE else [])))
                 else:
                     ops.append("unref %d" % rng.choice((9, 10)))
             elif r < 0.97 and (ms or as_):
@@ -497,6 +610,7 @@ class C15(DiffProperty):
         cases = self.pair_cases() + self.boundary_cases() + self.counter_cases(4 if quick else 8)
         cases += self.history_cases(2 if quick else 3)
         cases += self.cxx_cases(2 if quick else 3)
+        cases += self.node_cases(2 if quick else 3, rng, 0.03 if quick else 0.02)
         if quick:
             # length 3 histories: every kind, a random third of the triples
             for kind in MKINDS + ["mbuf"]:
@@ -508,6 +622,7 @@ class C15(DiffProperty):
         cases += [self.random_c(rng) for _ in range(nc)]
         cases += [self.random_x(rng) for _ in range(nx)]
         cases += [self.random_x(rng, "g") for _ in range(nx)]
+        cases += [self.random_n(rng) for _ in range(nx)]
         return cases
 
 
